@@ -747,3 +747,154 @@ PROPS["C19"]["level_note"] += ("; client groups (round 3): the (question, group)
                                "changes (proved); that the Go goroutine really carries the client address as a value copied at "
                                "spawn time (and not the pooled request context) is tested by kind prefetchgrp, and the re-reading "
                                "design is refuted on the model")
+
+
+# ---- kind prefetchcost: the resource limiter x cache / prefetch (round 6) ----
+# The running router gets limiter buckets that do not refill (hook); every op is one query through a real listener; after
+# each op (and after the refresh it started has ended) the tokens left are read. Oracle (property text: the hit is answered
+# immediately from cache whatever the refresh does; a failed refresh leaves the entry usable): a hit inside the refresh
+# window costs its client exactly what the same hit outside the window costs (control in the same run), whatever the
+# refresh's fate; with a budget sized for N hits outside + N hits inside the window, all 2N are answered from the cache.
+_COST_HIT = {"udp": 2, "tcp": 6, "gnet": 4, "http": 3, "fasthttp": 1}     # per bucket, for sizing budgets only
+
+
+def _cost_lkind(l):
+    return "fasthttp" if l.startswith("fasthttp") else ("http" if l.startswith("http") else l)
+
+
+def c19_cost_gen(rng, tier):
+    out = []
+
+    def clients(n, with_invalid=True):
+        cs = []
+        for i in range(n):
+            k = rng.random()
+            if k < 0.4:
+                cs.append("%s@127.0.0.1" % rng.choice(["udp", "tcp", "gnet"]))
+            elif k < 0.85 or not with_invalid:
+                l = rng.choice(_GRP_HTTP)
+                a = ("10.%d.%d.%d" % (20 + i, rng.randint(0, 255), rng.randint(1, 254))) if rng.random() < 0.8 else (
+                    "2001:db8:%x::%x" % (0x100 + i, rng.randint(1, 0xffff)))
+                cs.append("%s@%s" % (l, a))
+            else:
+                cs.append("%s@-" % rng.choice(_GRP_HTTP))
+        return cs
+
+    base = [  # (up, rf, glob, clients, ops)
+        ("u", "servfail", 0, ["udp@127.0.0.1"], "H@0,W@0,W@0,W@0,M@0,H@0,W@0"),
+        ("u", "servfail", 1, ["http-post@10.1.2.3", "udp@127.0.0.1"], "H@0,W@0,H@1,W@1,W@0,M@0,M@1,W@0"),
+        ("t", "fail", 0, ["tcp@127.0.0.1", "fasthttp-get@10.9.8.7"], "H@0,H@1,W@0,W@1,W@0,W@1"),
+        ("u", "ok", 1, ["gnet@127.0.0.1", "http-get@2001:db8:7::1"], "M@0,H@0,W@0,H@1,W@1,W@0"),
+        ("t", "slow", 0, ["http-get@10.4.4.4", "http-post@10.4.5.4", "fasthttp-post@-"], "H@0,W@0,H@1,W@1,H@2,W@2"),
+        ("u", "nx", 1, ["tcp@127.0.0.1"], "H@0,W@0,W@0,M@0"),
+    ]
+    for _ in range(budget(tier, 6, 40)):
+        cs = clients(rng.randint(1, 3))
+        ops = []
+        for _ in range(rng.randint(6, 14)):
+            ops.append((rng.choice("MHWWW"), rng.randrange(len(cs))))
+        for i in set(c for k, c in ops if k == "W"):      # a control for every client that hits inside the window
+            if ("H", i) not in ops:
+                ops.insert(rng.randrange(len(ops) + 1), ("H", i))
+        rf = rng.choice(["servfail", "servfail", "nx", "ok", "fail", "slow"])
+        if rf == "slow":
+            ops = ops[:8] + [o for o in ops[8:] if o[0] != "W"]
+        up = "t" if rf == "fail" else rng.choice("ut")
+        base.append((up, rf, rng.randint(0, 1), cs, ",".join("%s@%d" % o for o in ops)))
+    n = 0
+    for up, rf, glob, cs, ops in base:
+        tag = bytes(rng.choice(b"abcdefghijklmnopqrstuvwxyz0123456789") for _ in range(8))
+        out.append("a%d mode=acct up=%s rf=%s glob=%d burst=100000 cl=%s ops=%s tag=%s stagger=%d" % (
+            n, up, rf, glob, "+".join(cs), ops, gens.hx(tag), 60 * (n % 16)))
+        n += 1
+    # budget: N hits outside the window (they calibrate: half of the budget pays for them), then the same N hits inside it
+    bud = [("udp@127.0.0.1", 5, "servfail", "u", 1), ("tcp@127.0.0.1", 4, "fail", "t", 0), ("http-post@10.1.2.3", 5, "servfail", "u", 0),
+           ("gnet@127.0.0.1", 6, "nx", "t", 1), ("fasthttp-get@10.7.7.7", 8, "servfail", "u", 0), ("udp@127.0.0.1", 12, "nx", "t", 0)]
+    for _ in range(budget(tier, 2, 20)):
+        c = clients(1, with_invalid=False)[0]
+        rf = rng.choice(["servfail", "nx", "fail"])
+        sock = c.endswith("@127.0.0.1")
+        bud.append((c, rng.choice([3, 5, 8, 13]), rf, "t" if rf == "fail" else rng.choice("ut"), rng.randint(0, 1) if sock else 0))
+    for c, nh, rf, up, glob in bud:
+        tag = bytes(rng.choice(b"abcdefghijklmnopqrstuvwxyz0123456789") for _ in range(8))
+        burst = 2 * nh * _COST_HIT[_cost_lkind(c.split("@")[0])]
+        out.append("b%d mode=budget up=%s rf=%s glob=%d burst=%d cl=%s ops=%s tag=%s stagger=%d" % (
+            n, up, rf, glob, burst, c, ",".join(["H@0"] * nh + ["W@0"] * nh), gens.hx(tag), 60 * (n % 16)))
+        n += 1
+    return out
+
+
+def _cost_parse(line, res):
+    f = gens.fields(line)
+    r = gens.fields(res)
+    ops = [(o.split("@")[0], int(o.split("@")[1])) for o in f["ops"].split(",")]
+    rs = [x.split(":") for x in r["r"].split(",")]
+    # answers "E:<why>" contain a colon: re-join
+    rs = [([x[0] + ":" + x[1]] + x[2:]) if x[0] == "E" else x for x in rs]
+    if len(rs) != len(ops) or any(len(x) != 5 for x in rs):
+        raise ValueError("unparsable")
+    return f, ops, rs
+
+
+def c19_cost_oracle(line, res):
+    """independent of the model and of the cost table: controls inside the run"""
+    if res.startswith("timing=bad"):
+        return None
+    try:
+        f, ops, rs = _cost_parse(line, res)
+    except Exception:
+        return "unparsable result"
+    cls = f["cl"].split("+")
+    ctl = {}
+    for (k, c), x in zip(ops, rs):
+        if k == "H" and x[0] == "A" and c not in ctl:
+            ctl[c] = x
+    if f["mode"] == "budget":
+        nh = sum(1 for kk, _ in ops if kk == "H")
+        if sum(1 for (kk, _), xx in zip(ops, rs) if kk == "H" and xx[0] == "A") != nh:
+            return None          # the calibration itself failed: left to the comparison with the model
+        badw = [(i, c, x) for i, ((k, c), x) in enumerate(zip(ops, rs)) if k == "W" and x[0] != "A"]
+        if badw:
+            i, c, x = badw[0]
+            return ("client %s, budget of %s tokens: %d hits outside the refresh window were answered from the cache with half "
+                    "of it; of the same %d hits INSIDE the window (upstream answers every refresh with %s) %d were not answered "
+                    "from the cache (first: #%d, got %s): failing background refreshes used up the client's budget" % (
+                        cls[c], f["burst"], nh, nh, f["rf"], len(badw), i - nh + 1, x[0]))
+    for i, ((k, c), x) in enumerate(zip(ops, rs)):
+        if k != "W":
+            continue
+        if x[0] != "A":
+            return "hit #%d of %s inside the refresh window was not answered from the cache (%s)" % (i, cls[c], x[0])
+        if c in ctl and x[1:4] != ctl[c][1:4]:
+            return ("a hit of %s inside the refresh window (refresh: %s) was charged client/peer/global = %s; the same hit outside "
+                    "the window costs %s: the background refresh is paid by the client whose hit started it" % (
+                        cls[c], f["rf"], "/".join(x[1:4]), "/".join(ctl[c][1:4])))
+        if int(x[4]) > 1:
+            return "%s refresh queries for one hit" % x[4]
+    return None
+
+
+def c19_cost_compare(ir, mr):
+    return ir.startswith("timing=bad") or ir == mr
+
+
+def c19_cost_classify(line, res):
+    f = gens.fields(line)
+    ls = sorted(set(_cost_lkind(c.split("@")[0]) for c in f.get("cl", "").split("+")))
+    return "%s rf=%s glob=%s %s%s" % (f.get("mode"), f.get("rf"), f.get("glob"), "+".join(ls),
+                                      " timing-bad-skipped" if res.startswith("timing=bad") else "")
+
+
+PROPS["C19"]["kinds"].append(dict(name="prefetchcost", gen=c19_cost_gen, oracle=c19_cost_oracle, compare=c19_cost_compare,
+                                  classify=c19_cost_classify, nontrivial=lambda l, r: r.startswith("r="), timeout=300))
+PROPS["C19"]["rule"] += ("; prefetchcost: one run per case on a private in-process router whose limiter buckets do not refill (hook): "
+                         "a sequence of misses, hits and hits inside the refresh window (refresh answered ok / SERVFAIL / NXDOMAIN / "
+                         "slowly / failing) by 1-3 clients through real listeners, tokens read after every op; acct: huge burst, "
+                         "charges compared with the model's cost function; budget: burst sized exactly for N hits outside + N inside "
+                         "the window")
+PROPS["C19"]["assumptions"].append(
+    "prefetchcost: limiter buckets built by the router's own constructors with a refill rate of 1e-4 tokens/s (the configuration "
+    "allows whole tokens per second only); the transport cost table (per listener) is C15's matter and is mirrored, quirks included")
+PROPS["C19"]["level_note"] += ("; limiter (round 6): the charge to a client is a function of its own requests only, refreshes cost "
+                               "nobody anything (proved on Router/PrefetchCost.v, charging inside forward() refuted); tied to the code "
+                               "by kind prefetchcost, which reads the real buckets")
